@@ -13,8 +13,8 @@ ID = "C14"
 COQ_IMPORT = "Corr.CNodes"
 COQ_CASE_TYPE = "g_case"
 COQ_CHECK = "g_check"
-THEOREMS = ["c14_conv1d_annotation_survives", "c14_conv2d_annotation_survives", "c14_inference_changes_only_annotations"]
-PROOF_FILES = ["Proofs/SerialProofs.v", "Proofs/InferProofs.v"]
+THEOREMS = ["c14_annotations_survive_file", "c14_conv1d_regain", "c14_conv2d_regain", "c14_conv2d_regain_after_file", "c14_constructors_respect_similarity", "c14_round_trip_values_are_similar", "c14_conv_arithmetic_respects_similarity", "c14_inference_changes_only_annotations"]
+PROOF_FILES = ["Proofs/LayoutProofs.v", "Proofs/SimProofs.v", "Proofs/SerialProofs.v", "Proofs/InferProofs.v"]
 RULE = ("the C08 generator of consistent graphs (with and without erased annotations); histories over "
         "{infer_types, write+read, to_dict+from_dict} of length <= 4: all 3^k interleavings for k <= 3 on a sample of "
         "graphs in the thorough tier, random ones in quick; after the history one more infer_types(); every node's types "
